@@ -181,14 +181,37 @@ theorem single_bit_detected (t : Nat) (ht : t = 1 ∨ t = 2) (pre post : Bytes) 
 
 /-! ## The model of dtn7's check -/
 
-/-- **`accept_iff_crc`**: a block whose bytes before the CRC item are `buf` (for a canonical block: with
-the array head in shortest form, which is what `canonicalBuf` replays) and whose CRC item is the byte
-string `field` of the declared length is accepted by the model's check iff its last `crcLen t` bytes are
-the CRC-16/X-25 resp. CRC-32C of the complete received block bytes with those bytes zeroed. -/
-theorem accept_iff_crc (t : Nat) (ht : t = 1 ∨ t = 2) (buf field rest : Bytes)
+/-- **`accept_iff_crc`** — full statement (NOT true of the code, see `reencoded_head_witness` and
+`declared_but_absent_witness`): *every block that declares CRC type 1/2 is accepted by the parser iff the
+last `crcLen t` bytes of exactly the bytes consumed for it are the CRC of those bytes with the field
+zeroed.* What holds is the statement for blocks whose array length announces the CRC item and whose
+array head / CRC item head are in shortest form (the excluded classes are the two known findings).
+
+Buffer level: a block whose bytes before the CRC item are `buf` and whose CRC item is the byte string
+`field` (shortest head) of the declared length is accepted by the model's check iff `BlockCrcOk`. -/
+theorem accept_iff_crc_partial (t : Nat) (ht : t = 1 ∨ t = 2) (buf field rest : Bytes)
     (hf : field.length = crcLen t) :
     checkField buf t (encBytes field ++ rest) = .ok (field, rest) ↔ BlockCrcOk t (buf ++ encBytes field) :=
   Lemmas.accept_iff_crc t ht buf field rest hf
+
+/-- Parser level, canonical block: the model parser read a 6-element array declaring CRC type `t`
+(`hpre`), the array head it consumed is the shortest form (`hhead`), the CRC item is `encBytes v` with
+`v` of the declared length. Then the block is accepted, leaving `x` unread, iff the Spec holds of
+`consumed bs x` — exactly the received bytes of that block. -/
+theorem canonical_accept_iff_crc_partial (t : Nat) (ht : t = 1 ∨ t = 2) (bs r0 r v x : Bytes)
+    (hpre : canonicalPre bs = .ok (6, t, r0, r))
+    (hhead : consumed bs r0 = encArray 6)
+    (hitem : r = encBytes v ++ x) (hv : v.length = crcLen t) :
+    parseCanonical bs = .ok x ↔ BlockCrcOk t (consumed bs x) :=
+  Lemmas.canonical_accept_iff_crc t ht bs r0 r v x hpre hhead hitem hv
+
+/-- Parser level, primary block (9 or 11 elements; the array head is tee'd as received, so only the CRC
+item head has to be in shortest form). -/
+theorem primary_accept_iff_crc_partial (t : Nat) (ht : t = 1 ∨ t = 2) (bs r v x : Bytes) (n : Nat)
+    (hn : n = 9 ∨ n = 11) (hpre : primaryPre bs = .ok (n, t, r))
+    (hitem : r = encBytes v ++ x) (hv : v.length = crcLen t) :
+    parsePrimary bs = .ok x ↔ BlockCrcOk t (consumed bs x) :=
+  Lemmas.primary_accept_iff_crc t ht bs r v x n hn hpre hitem hv
 
 /-- Whatever is accepted — any head width, any length — carries the value `calculateCRCBuff` computed:
 in particular a CRC item of another length than declared is rejected. -/
@@ -281,14 +304,15 @@ theorem single_bit_any_witness :
 
 /-- The CRC is computed over a *re-encoded* head, not over the received bytes: a canonical block whose
 array head is the two-byte form `98 06` is accepted with the CRC of the `86 …` form (the model says so
-and the Go code does so), although that is not the CRC of the received bytes. So `accept_iff_crc`
-cannot be stated for arbitrary received head widths. -/
+and the Go code does so), although that is not the CRC of the received bytes. This is the witness against
+the full `accept_iff_crc` (hypothesis `hhead` of `canonical_accept_iff_crc_partial`). -/
 theorem reencoded_head_witness :
     parseCanonical [0x98, 0x06, 0x01, 0x01, 0x00, 0x01, 0x41, 0x78, 0x42, 0x27, 0x00] = .ok [] ∧
     ¬ BlockCrcOk 1 [0x98, 0x06, 0x01, 0x01, 0x00, 0x01, 0x41, 0x78, 0x42, 0x27, 0x00] ∧
     BlockCrcOk 1 [0x86, 0x01, 0x01, 0x00, 0x01, 0x41, 0x78, 0x42, 0x27, 0x00] := by decide +kernel
 
-/-- D5: a block that declares a CRC type but is a 5-element array carries no CRC and is accepted. -/
+/-- D5: a block that declares a CRC type but is a 5-element array carries no CRC and is accepted (witness
+against the full `accept_iff_crc`: hypothesis `hpre … (6, …)` of `canonical_accept_iff_crc_partial`). -/
 theorem declared_but_absent_witness :
     parseCanonical [0x85, 0x01, 0x01, 0x00, 0x01, 0x41, 0x78] = .ok [] ∧
     crcStatus false ⟨[0x85, 0x01, 0x01, 0x00, 0x01, 0x41, 0x78], [[0x01], [0x01], [0x00], [0x01], [0x41, 0x78]]⟩
@@ -306,6 +330,12 @@ example : canonicalPre [0x86, 0x01, 0x01, 0x00, 0x01, 0x41, 0x78, 0x42, 0x27, 0x
   decide +kernel
 example : parseCanonical [0x86, 0x01, 0x01, 0x00, 0x01, 0x41, 0x78, 0x42, 0x27, 0x00, 0xff] = .ok [0xff] := by
   decide +kernel
+example : consumed [0x86, 0x01, 0x01, 0x00, 0x01, 0x41, 0x78, 0x42, 0x27, 0x00, 0xff]
+    [0x01, 0x01, 0x00, 0x01, 0x41, 0x78, 0x42, 0x27, 0x00, 0xff] = encArray 6 := by decide +kernel
+example : primaryPre [0x89, 0x07, 0x1a, 0x00, 0x02, 0x00, 0x00, 0x01, 0x82, 0x01, 0x64, 0x2f, 0x2f, 0x64, 0x2f,
+    0x82, 0x01, 0x64, 0x2f, 0x2f, 0x73, 0x2f, 0x82, 0x01, 0x64, 0x2f, 0x2f, 0x73, 0x2f, 0x82, 0x1b, 0x00, 0x00,
+    0x00, 0xb3, 0x1b, 0x9c, 0xb2, 0x00, 0x00, 0x1b, 0x00, 0x00, 0x02, 0xde, 0x41, 0x35, 0x30, 0x00, 0x42, 0xd6,
+    0x77, 0x86] = .ok (9, 1, encBytes [0xd6, 0x77] ++ [0x86]) := by decide +kernel
 example : checkField [0x86, 0x01, 0x01, 0x00, 0x01, 0x41, 0x78] 1 (encBytes [0x27, 0x00] ++ [0xff])
     = .ok ([0x27, 0x00], [0xff]) := by decide +kernel
 example : P16.msb = true ∧ P32.msb = true := by decide
